@@ -1725,8 +1725,11 @@ class Process:
         except (FileNotFoundError, ProcessLookupError):
             # Do not use os.path.lexists(): it swallows EACCES / EPERM
             # and would make us re-raise a bare FileNotFoundError.
+            # Probe a file *inside* /proc/PID: during teardown the
+            # directory may still resolve while its entries are gone
+            # already (same state as in issue 2418).
             try:
-                os.lstat(f"{self._procfs_path}/{self.pid}")
+                os.lstat(f"{self._procfs_path}/{self.pid}/stat")
             except (FileNotFoundError, ProcessLookupError):
                 pass
             else:
